@@ -482,7 +482,7 @@ class SimpleHeatPumpCycle:
             condenser_profile = np.array([
                 [H[1], T[1]],            # superheated
                 [h_sat_vapor, T_sat_vapor] if h_sat_vapor < H[1] else [H[1], T[1]],
-                [h_sat_liquid, T_sat_liquid],
+                [h_sat_liquid, T_sat_liquid] if h_sat_liquid < H[1] else [H[1], T[1]],
                 [H[2], T[2]],            # subcooled outlet
             ], dtype=float)
 
